@@ -1124,10 +1124,14 @@ class PyCdlib:
                                                 new_record.rock_ridge.bytes_to_skip,
                                                 True, new_record.file_identifier())
                     cdfp.seek(orig_pos)
-                    block = self.pvd.track_rr_ce_entry(ce_record.bl_cont_area,
-                                                       ce_record.offset_cont_area,
-                                                       ce_record.len_cont_area)
-                    new_record.rock_ridge.update_ce_block(block)
+                    # The continuation area of the root's dot record (the 'ER'
+                    # sector) is always laid out on its own, so it must not
+                    # be offered to other records as a continuation block.
+                    if not (dir_record.is_root and new_record.is_dot()):
+                        block = self.pvd.track_rr_ce_entry(ce_record.bl_cont_area,
+                                                           ce_record.offset_cont_area,
+                                                           ce_record.len_cont_area)
+                        new_record.rock_ridge.update_ce_block(block)
                     # The version-specific entries may live in the continuation
                     # area, so only now is the inferred version complete.
                     rr = new_record.rock_ridge.rr_version
